@@ -354,11 +354,24 @@ def get_universe(lane, u):
   return Z['universes'][u]
 
 
-def _feats(malt, idx):
+def _feats(malt, idx, spell=0):
+  """The feature set `idx`, spelled one of the ways the API accepts: tuple (as
+  listed / reversed), set, list, or a bare Feature for singletons.  Every
+  spelling denotes the same option value."""
   names = FEATSETS[idx % len(FEATSETS)]
   if not names:
     return None
-  return tuple(getattr(malt.experimental.Feature, n) for n in names)
+  fs = tuple(getattr(malt.experimental.Feature, n) for n in names)
+  spell = (spell or 0) % 5
+  if spell == 1:
+    return fs[::-1]
+  if spell == 2:
+    return set(fs)
+  if spell == 3:
+    return list(fs[::-1])
+  if spell == 4 and len(fs) == 1:
+    return fs[0]
+  return fs
 
 
 # ---------------------------------------------------------------------------
@@ -559,7 +572,7 @@ def _ref_fresh(U, op, base):
   import malt
   mod = _load_fresh(base, U, op['slot'], op['ver'])
   try:
-    G = malt.to_graph(mod.vf, recursive=op['rec'], experimental_optional_features=_feats(malt, op['feats']))
+    G = malt.to_graph(mod.vf, recursive=op['rec'], experimental_optional_features=_feats(malt, op['feats']))   # canonical spelling
   except Exception as ex:   # noqa: BLE001
     return {'kind': 'exc', 'exc': type(ex).__name__}
   return {'kind': 'fn', 'call': _traced_call(G, None, op['x'])}
@@ -585,7 +598,8 @@ def _request(malt, api, converter, f, req):
     l = []
     with common.optrace() as tr:
       try:
-        g = malt.to_graph(f, recursive=req['rec'], experimental_optional_features=_feats(malt, req['feats']))
+        g = malt.to_graph(f, recursive=req['rec'],
+                          experimental_optional_features=_feats(malt, req['feats'], req.get('spell')))
         o = common.outcome(g, req['x'], l)
       except Exception as ex:   # noqa: BLE001
         o = ('exc', 'conversion:' + type(ex).__name__)
@@ -619,12 +633,12 @@ def _call_thunk(malt, api, converter, f, op):
 
 def _call_thunk_inner(malt, api, converter, f, op):
   if op['op'] == 'cv':
-    w = malt.convert(recursive=op['rec'], optional_features=_feats(malt, op['feats']),
+    w = malt.convert(recursive=op['rec'], optional_features=_feats(malt, op['feats'], op.get('spell')),
                      user_requested=op['ur'])(f)
     return w
   opts = converter.ConversionOptions(
       recursive=op['rec'], user_requested=op['ur'], internal_convert_user_code=op['icuc'],
-      optional_features=_feats(malt, op['feats']))
+      optional_features=_feats(malt, op['feats'], op.get('spell')))
   kwmode = op.get('kw', 'none')
 
   def call(x, l):
@@ -732,6 +746,8 @@ def make_plan(seed, index, tier, sub):
         op = {'op': 'cc', 'fid': fid, 'rec': rec, 'feats': fi, 'ur': rng.random() < 0.5,
               'icuc': rng.random() < 0.8, 'x': rng.choice(XS),
               'kw': rng.choice(['none', 'none', 'empty', 'named']), 'disabled': rng.random() < 0.12}
+      if rng.random() < 0.4:
+        op['spell'] = rng.randrange(1, 5)      # the same option value, spelled differently
       ops.append(op)
     threads.append({'ops': ops})
   # "fresh" ops: a new version of function vf is loaded *during* the run into a
@@ -746,7 +762,7 @@ def make_plan(seed, index, tier, sub):
       vers[slot] += 1
       rec, fi = rng.choice(optsets)
       op = {'op': 'fresh', 'slot': slot, 'ver': vers[slot], 'rec': rec, 'feats': fi,
-            'x': rng.choice(XS[:5]), 'fid': -1}
+            'x': rng.choice(XS[:5]), 'fid': -1, 'twice': rng.random() < 0.6, 'spell': rng.randrange(5)}
       ops = threads[t]['ops']
       ops.insert(rng.randrange(len(ops) + 1), op)
   # "mutate" ops: edit a function in place right after it was requested, then
@@ -892,8 +908,17 @@ class Run(object):
     got = None
     try:
       try:
-        g = malt.to_graph(f, recursive=op['rec'], experimental_optional_features=_feats(malt, op['feats']))
+        g = malt.to_graph(f, recursive=op['rec'],
+                          experimental_optional_features=_feats(malt, op['feats'], op.get('spell')))
         rec['status'] = 'fn'
+        if op.get('twice'):
+          # the same live function under the same options again: a cache hit, no second transformation
+          g2 = malt.to_graph(f, recursive=op['rec'],
+                             experimental_optional_features=_feats(malt, op['feats'], (op.get('spell') or 0) + 1))
+          if g2.__globals__ is not f.__globals__:
+            self.viol('R3', 'T%d op%d fresh(slot %d, version %d), second request: served function uses another '
+                      'module\'s globals' % (tid, i, slot, ver), 'globals')
+          g2 = None
       except Exception as ex:   # noqa: BLE001
         rec['status'] = 'exc'
         rec['exc'] = type(ex).__name__
@@ -985,7 +1010,7 @@ class Run(object):
       if op['op'] == 'tg':
         try:
           g = self.malt.to_graph(f, recursive=op['rec'],
-                                 experimental_optional_features=_feats(self.malt, op['feats']))
+                                 experimental_optional_features=_feats(self.malt, op['feats'], op.get('spell')))
           rec['status'] = 'fn'
           rec['served'] = g
           rec['env'] = (e.globals, e.defaults, e.kwdefaults, dict(e.cells))
